@@ -211,3 +211,20 @@ def split_history(rng, s, names=("a", "b"), seq=None):
         pre.append([[rng.choice(names)], ["."], rng.choice([None, "c2", "c3", "q"])])
     rng.shuffle(pre)
     return [pre, [seq, list(s), rng.choice([None, None, "me", "c1", "c2"])]]
+
+
+def split_runs(rng, s):
+    """runs of split() on one object: [limit, set_id, how] - the generator is advanced at most `limit` times (None: to
+    its end) and abandoned (closed / released / left suspended); ComplexS.ID may be assigned before a run (small
+    values: the automatic names c1..c6 then clash with, or step over, names that are taken).  Most histories contain
+    an abandoned or failed run followed by a complete one."""
+    n = len(components(s))
+    runs = []
+    for _ in range(rng.choice([2, 2, 3, 3, 4])):
+        lim = None if rng.random() < 0.4 else rng.randrange(0, n + 1)
+        sid = rng.randrange(0, 7) if rng.random() < 0.3 else None
+        runs.append([lim, sid, rng.choice(["close", "close", "del", "keep"])])
+    if rng.random() < 0.7:
+        # ends with a complete run, after moving ComplexS.ID away from a name that may have been refused
+        runs.append([None, rng.choice([None, None, rng.randrange(0, 9)]), "close"])
+    return runs
